@@ -290,8 +290,10 @@ func judgeRelay(c *vrun.Ctx, origin *vnet.Origin, send func(raw string) *vnet.Re
 					report("hop-by-hop-forwarded/"+k, "origin received hop-by-hop header "+k)
 				}
 			}
-			if rq.Header.Get("X-Hop") != "" {
-				report("connection-nominated-forwarded", "origin received X-Hop although the client's Connection header names it")
+			for _, tok := range connectionTokens(clientReq.Header) {
+				if _, got := rq.Header[tok]; got {
+					report("connection-nominated-forwarded", "origin received "+tok+" although the client's Connection header names it")
+				}
 			}
 		} else if len(reqs) != 0 && round == 1 {
 			// not from the store after all (e.g. not storable): still judged as a relayed answer
@@ -343,8 +345,10 @@ func judgeRelay(c *vrun.Ctx, origin *vnet.Origin, send func(raw string) *vnet.Re
 				report("hop-by-hop-relayed/"+k, where+": client received the origin's hop-by-hop header "+k)
 			}
 		}
-		if resp.Header.Get("X-Resp-Hop") != "" {
-			report("connection-nominated-relayed", where+": client received X-Resp-Hop although the origin's Connection header names it")
+		for _, tok := range connectionTokens(originHdr) {
+			if _, got := resp.Header[tok]; got {
+				report("connection-nominated-relayed", where+": client received "+tok+" although the origin's Connection header names it")
+			}
 		}
 	}
 	c.Outcome(transport + ":" + strings.Join(rc.feats, "+"))
@@ -453,4 +457,19 @@ func scenarioRelay(c *vrun.Ctx) {
 	}
 	c.Res.Bounds["features"] = len(relayFeatures())
 	c.Res.Bounds["cases_single_and_pairs"] = len(cases)
+}
+
+// connectionTokens returns the field names a Connection header nominates (canonical spelling; the
+// connection options close / keep-alive are not field names).
+func connectionTokens(h http.Header) []string {
+	var out []string
+	for _, v := range h.Values("Connection") {
+		for _, t := range strings.Split(v, ",") {
+			t = http.CanonicalHeaderKey(strings.TrimSpace(t))
+			if t != "" && t != "Close" && t != "Keep-Alive" {
+				out = append(out, t)
+			}
+		}
+	}
+	return out
 }
